@@ -47,6 +47,14 @@ pub enum Zone {
     Other(u8),
     /// no key label at all
     None,
+    /// last label merely *ends with* the signer's key string ("ab<key>"): outside every zone
+    #[serde(alias = "SuffixTrick")]
+    KeyAsLabelSuffix,
+    /// last label merely *starts with* the signer's key string ("<key>ab"): outside every zone
+    KeyAsLabelPrefix,
+    /// another key's label below the signer's zone ("<label>.<other>.<signer>"): inside the signer's
+    /// zone, but a different name than "<label>.<signer>"
+    OtherKeyBelowOwn(u8),
 }
 
 #[derive(Clone, Debug, Serialize, Deserialize)]
@@ -83,6 +91,9 @@ fn rec_name(r: &Rec, signer: u8) -> String {
         Zone::Own => format!("{}.{}", label(r.label), z32(signer)),
         Zone::Other(k) => format!("{}.{}", label(r.label), z32(*k)),
         Zone::None => format!("{}.nokey", label(r.label)),
+        Zone::KeyAsLabelSuffix => format!("{}.ab{}", label(r.label), z32(signer)),
+        Zone::KeyAsLabelPrefix => format!("{}.{}ab", label(r.label), z32(signer)),
+        Zone::OtherKeyBelowOwn(k) => format!("{}.{}.{}", label(r.label), z32(*k), z32(signer)),
     }
 }
 
@@ -223,7 +234,13 @@ fn gen_recs(rng: &mut Rng, adversarial: bool) -> Vec<Rec> {
         .map(|_| Rec {
             label: rng.range(0, 3) as u8,
             zone: if adversarial && rng.chance(1, 3) {
-                if rng.coin() { Zone::Other(rng.range(0, 2) as u8) } else { Zone::None }
+                match rng.below(6) {
+                    0 | 1 => Zone::Other(rng.range(0, 2) as u8),
+                    2 => Zone::None,
+                    3 => Zone::KeyAsLabelSuffix,
+                    4 => Zone::KeyAsLabelPrefix,
+                    _ => Zone::OtherKeyBelowOwn(rng.range(0, 2) as u8),
+                }
             } else {
                 Zone::Own
             },
@@ -330,6 +347,18 @@ fn run_seq(case: &SeqCase, ctx: &Ctx, check_updates: bool) {
             }
             // snapshot of all answers before a publish that should be rejected
             let should_reject = p.corrupt_signature || p.truncate_body || path_key != p.signer;
+            if p.corrupt_signature {
+                ctx.count("fault.publish_with_corrupt_signature");
+            }
+            if p.truncate_body {
+                ctx.count("fault.publish_with_truncated_body");
+            }
+            if path_key != p.signer {
+                ctx.count("fault.publish_under_foreign_key_path");
+            }
+            if p.recs.iter().any(|r| !matches!(r.zone, Zone::Own)) {
+                ctx.count("fault.publish_with_record_outside_signer_zone");
+            }
             let before = if should_reject { Some(snapshot(&server, &mut qid).await) } else { None };
             let n_ups = upserts.lock().unwrap().len();
             let status = server.pkarr_put(&z32(path_key), Bytes::from(body)).await;
